@@ -278,7 +278,7 @@ pub fn run(input: &Value) -> Case {
     Case { coq, json: j, tags, nontrivial }
 }
 
-pub fn generate(rng: &mut Rng, n: usize) -> Vec<Value> {
+pub fn generate(rng: &mut Rng, n: usize, _tier: &str) -> Vec<Value> {
     let mut v = vec![];
     while v.len() < n {
         let h = if rng.chance(1, 12) { 0 } else { 1 + rng.below(8) as usize };
